@@ -301,15 +301,17 @@ let () =
 
 (* ---------------- C17 ---------------- *)
 let () =
-  (* tsm <type 0|1> <n> <t.tiny.const.raw.e64.intervals.v,v,v/...>: reconstructions per step, final history, flags *)
+  (* tsm <type 0|1> <n> <t.tiny.const.raw.e64.intervals.v,v,v/...> [1 = value-range protection]: reconstructions handed out per step, final history, flags *)
   reg "tsm" (fun a -> match a with
-    | [ty; n; steps] ->
+    | ty :: n :: steps :: rest ->
+      let protect = (rest = ["1"]) in
       let b s = (s = "1") in
       let rs = List.map (fun t -> match String.split_on_char '.' t with
           | [t; ti; co; ra; e; iv; d] -> ((((((b t, b ti), b co), b ra), z_of_hex e), z_of_hex iv), zlist_of_string d)
           | _ -> failwith "tsm step") (String.split_on_char '/' steps) in
       let nn = nat_of_int (int_of_string ("0x" ^ n)) in
       let (((recs, hf), (lock, bound)), self) = if ty = "0" then ts_run_f nn rs else ts_run_d nn rs in
+      let recs = if ty = "0" then ts_out_f protect rs recs else ts_out_d protect rs recs in
       Printf.sprintf "rec=%s hist=%s lock=%d bound=%d self=%d" (String.concat "/" (List.map sl recs)) (sl hf)
         (if lock then 1 else 0) (if bound then 1 else 0) (if self then 1 else 0)
     | _ -> failwith "tsm");
